@@ -137,6 +137,33 @@ theorem walk_layout_fp_concrete (a : Arch) (os : Os) (w : World) (mem : Mem) (ct
   obtain ⟨hm, ⟨hno, hv⟩, hp⟩ := hpre
   exact walk_layout_fp (mkEnv a os w mem) a rfl ha hwin (mkEnv_noCfi a os w mem hno) mem hm ctx hv h64 chain hp
 
+/-! ### the numbers of the property text are the numbers of the code
+
+  `Pre` uses the property's numbers as literals; the model uses the constants translated from the
+  Rust sources on every run. These theorems pin the two together: a changed window, probe or
+  adjustment in the code breaks them (besides making generated chains fail). -/
+
+/-- "scan windows of 40/160 words" (MIPS: 1024 bytes) -/
+theorem scan_windows :
+    (∀ a, a = .x86 ∨ a = .amd64 ∨ a = .arm ∨ a = .arm64 ∨ a = .arm64old →
+      scanWindow a .context = 160 ∧ scanWindow a .scan = 40 ∧ scanWindow a .fp = 40 ∧ scanWindow a .cfi = 40) ∧
+    (∀ t, scanWindow .mips32 t = 256 ∧ scanWindow .mips64 t = 128) ∧ Consts.mips_min_args = 4 := by
+  refine ⟨?_, ?_, rfl⟩
+  · intro a ha
+    rcases ha with h | h | h | h | h <;> subst h <;> exact ⟨rfl, rfl, rfl, rfl⟩
+  · intro t; cases t <;> exact ⟨rfl, rfl⟩
+
+/-- "Windows x64 240-byte frame-pointer slack": 16 probes, 16 bytes apart -/
+theorem windows_probe : Consts.win_probe_max = 15 ∧ Consts.win_probe_step = 16 ∧
+    Consts.win_probe_max * Consts.win_probe_step = 240 := ⟨rfl, rfl, rfl⟩
+
+/-- return-address adjustment (1, 2, 4, 8 bytes back) and pointer widths -/
+theorem adjustments_and_widths :
+    Arch.x86.adj = 1 ∧ Arch.amd64.adj = 1 ∧ Arch.arm.adj = 2 ∧ Arch.arm64.adj = 4 ∧ Arch.arm64old.adj = 4 ∧
+    Arch.mips32.adj = 8 ∧ Arch.mips64.adj = 8 ∧
+    Arch.x86.ptr = 4 ∧ Arch.amd64.ptr = 8 ∧ Arch.arm.ptr = 4 ∧ Arch.arm64.ptr = 8 ∧ Arch.arm64old.ptr = 8 ∧
+    Arch.mips32.ptr = 4 ∧ Arch.mips64.ptr = 8 := by decide
+
 /-
   Stated, not proved (the tie checks them on every generated case; see the header):
 
